@@ -13,6 +13,7 @@
 #include "quill/filters/Filter.h"
 #include "quill/sinks/Sink.h"
 #include "enum.h"
+#include <thread>
 #ifndef LEN
 #define LEN 2
 #endif
@@ -37,6 +38,7 @@ int main()
 {
   quill::ManualBackendWorker* backend = quill::Backend::acquire_manual_backend_worker();
   quill::BackendOptions bo; bo.log_timestamp_ordering_grace_period = std::chrono::microseconds{0};
+  bo.transit_event_buffer_initial_capacity = 1;   // the backend buffer grows while statements of a sequence are pending: a moved event must keep its (dynamic) level - seed C16-P4
   backend->init(bo);
   auto A = std::make_shared<RecSink>(); auto B = std::make_shared<RecSink>();
   auto C = std::make_shared<RecSink>(quill::PatternFormatterOptions{"OVR %(log_level) %(message)"});
@@ -57,6 +59,9 @@ int main()
       if (seq.empty()) return;
       current_case("logger=" + std::string(LN[ll]) + " A=" + std::to_string(al) + " C=" + std::to_string(cl) + " seq=" + seq);
       std::vector<std::string> wa, wb, wc; std::vector<quill::LogLevel> la, lb, lc;
+      // every sequence is logged by a thread of its own: a new thread has a new backend buffer (initial capacity 1), so the buffer GROWS while the
+      // first statement of the sequence is pending - a moved event must keep every field, its dynamic level included (seed C16-P4)
+      std::thread logging_thread([&] {
       for (size_t i = 0; i < seq.size(); ++i)
       {
         int kind = seq[i] - 'a'; int lvl = kind & 3; bool dyn = (kind >> 2) & 1; bool withx = (kind >> 3) & 1;
@@ -74,7 +79,9 @@ int main()
           if (LV[lvl] >= c_level) { wc.push_back("OVR " + body); lc.push_back(LV[lvl]); }
         }
       }
-      backend->poll();
+      });
+      logging_thread.join();
+      backend->poll(); backend->poll_one();   // the idle pass reclaims the exited thread's context
       std::string in = g_current_case;
       bool same_sets = A->statements.size() == wa.size() && B->statements.size() == wb.size() && C->statements.size() == wc.size();
       check(o1, same_sets, in + " A " + std::to_string(A->statements.size()) + "/" + std::to_string(wa.size()) + " B " + std::to_string(B->statements.size()) + "/" + std::to_string(wb.size()) + " C " + std::to_string(C->statements.size()) + "/" + std::to_string(wc.size()));
